@@ -3,10 +3,14 @@
 Same machinery as C06 (harness/codec_driver.py) with the by-value clauses of Codec!Judge (8 decimals
 for data and model numbers, same value for metadata, identifier obliged when the content is equal)
 and the per-format value domains of Codec!Domain deciding whether a refusal is acceptable."""
-from ..codec_driver import run_codec
+from ..codec_driver import run_codec, replay_file
 
 PID = "C07"
 
 
 def main(tier, seed):
     return run_codec(PID, ["csv", "xl", "aif"], tier, seed)
+
+
+def replay(path):
+    return replay_file(PID, path)
